@@ -478,6 +478,12 @@ func callSSA(i *interpreter, caller *frame, callpos token.Pos, fn *ssa.Function,
 		fn:     fn,
 	}
 	fr.caller = caller
+	if caller != nil && fn.Synthetic == "package initializer" {
+		// package initialisers run lazily (engine.go ensureInit), not in
+		// import order: a dependency is initialised when one of its globals
+		// is first read
+		return nil
+	}
 	if ext := i.eng.intrinsic(fn); ext != nil {
 		if i.mode&EnableTracing != 0 {
 			fmt.Fprintln(os.Stderr, "\t(intrinsic)")
